@@ -1,6 +1,6 @@
 """C06 — times mod 24 h, instants on the epoch line (wiring, guards, floor, units)."""
 from ._std import *
-from ..rules import wiring, units
+from ..rules import ranges, wiring, units
 from ..rules.common import hir_walk, node_line
 
 EXPLANATION = (
@@ -74,4 +74,5 @@ def main(tier):
                   "epoch_milliseconds does not floor-divide by 10^6 (found %d div_euclid, %d truncating ops)" %
                   (len(de), len(tr_div)), h.loc)
     units.report(run, fx, "C06")
+    ranges.check_balance(run, fx)
     return run.finish(EXPLANATION)
